@@ -47,6 +47,8 @@ class Conn(object):
         import time
         srv = NET.server(addr[0], addr[1])
         self.server = srv
+        if getattr(srv, 'on_attempt', None):
+            srv.on_attempt()            # the moment the client starts the attempt (before any connect delay)
         if NET.connect_delay:
             gevent.sleep(NET.connect_delay)
         srv.connect_attempts.append(time.time())
